@@ -17,7 +17,7 @@ from mc.util import Ctx, affine
 
 PROPERTY = "C19"
 RULE = (
-    "explicit-state BFS over sequences of public entry points sharing one set of caller-owned inputs: 54 operations (k-means "
+    "explicit-state BFS over sequences of public entry points sharing one set of caller-owned inputs: 63 operations (k-means "
     "fit numpy/dask/max_iter=0, transform, predict, cluster variances; GMM ML/MAP fit numpy/dask, acc_stats, transform, "
     "log-likelihood; statistics + and +=; linear_scoring with machines / arrays / offsets; ISV and JFA fit from list / bag / "
     "array / dask array, enroll, enroll_using_array, score (single, list), score_using_array, estimate_x/ux, transform; "
@@ -48,6 +48,12 @@ def make_world(s, o):
     W.y = np.array([0, 1, 0, 1, 0, 1, 1, 0])
     W.ylist = [0, 1, 0, 1, 0, 1, 1, 0]
     W.init = np.array([[0.0, 0.0], [1.0, 1.0]]) * s + o
+    W.yneg = np.array([-1, 0, -1, 0, -1, 0, 0, -1])  # class ids whose smallest value is not 0
+    W.relw = np.array([0.5, 0.25])  # relative weights (not summing to one) handed to a machine
+    W.relw2 = np.array([3.0, 1.0])
+    W.smallvar = np.array([[0.125, 2.0], [0.25, 0.0625]]) * s * s
+    W.ubm_kw = dict(max_fitting_steps=7, update_variances=True, update_weights=True, convergence_threshold=None)
+    W.lazy_kw = dict(n_gaussians=2, max_fitting_steps=1, convergence_threshold=None)
     u = GMMMachine(2, weights=np.array([0.375, 0.625]))
     u.means = np.array([[0.5, 0.5], [10.5, 10.5]]) * s + o
     u.variances = np.array([[1.0, 2.0], [0.5, 1.0]]) * s * s
@@ -119,7 +125,33 @@ def _ops():
         a += W.stats[2]
         return a
 
+    def gmm_given(W, route, **kw):
+        """a machine whose weights / variances are arrays of the caller"""
+        g = GMMMachine(2, weights=W.relw if route == "ctor" else None, update_means=True, update_variances=True, update_weights=True,
+                       max_fitting_steps=2, convergence_threshold=None, **kw)
+        g.means = W.init
+        g.variance_thresholds = 0.5 * float(W.smallvar.max())
+        g.variances = W.smallvar  # partly below the floor
+        if route == "setter":
+            g.weights = W.relw2
+        return g
+
+    def handover(W):
+        g = GMMMachine(2, update_means=True, update_variances=True, update_weights=True, max_fitting_steps=1)  # everything is re-estimated
+        g.variance_thresholds = 4.0 * float(np.asarray(W.ubm.variances).max())
+        g.means, g.variances, g.weights = W.ubm.means, W.ubm.variances, W.ubm.weights  # the very arrays the getters of another machine return
+        return g.fit(W.X)
+
     O = {
+        "gmm_given_ctor_fit": lambda W: gmm_given(W, "ctor").fit(W.X),
+        "gmm_given_setter_fit": lambda W: gmm_given(W, "setter").fit(W.X),
+        "gmm_given_setter_fit_dask": lambda W: gmm_given(W, "setter").fit(_da(W.X, (3, 2))),
+        "gmm_given_map_fit": lambda W: gmm_given(W, "setter", trainer="map", ubm=W.prior).fit(W.X),
+        "gmm_handover_fit": handover,
+        "isv_fit_array_neg_labels": lambda W: isv(W).fit_using_array(W.X, W.yneg),
+        "jfa_fit_array_neg_labels_dask": lambda W: jfa(W).fit_using_array(_da(W.X, (3, 2)), W.yneg),
+        "isv_fit_array_ubm_kwargs": lambda W: ISVMachine(r_U=1, em_iterations=1, ubm=W.ubm, ubm_kwargs=W.ubm_kw, random_state=0).fit_using_array(W.X, W.y),
+        "jfa_fit_array_lazy_ubm": lambda W: JFAMachine(r_U=1, r_V=1, em_iterations=1, ubm=None, ubm_kwargs=W.lazy_kw, random_state=3).fit_using_array(W.X, W.y),
         "km_fit": lambda W: km(W, max_iter=2).fit(W.X),
         "km_fit_iter0": lambda W: km(W, max_iter=0).fit(W.X),
         "km_fit_dask": lambda W: km(W, max_iter=2).fit(_da(W.X, (3, 2))),
